@@ -28,7 +28,7 @@ Spec == Init /\ [][Next]_vars
 \* sanity of P itself ------------------------------------------------------------
 TypeOK == st.run >= st.req /\ st.req >= 0 /\ st.cs <= st.now
 \* the breaker only opens on at least N gateway failures in a row
-TripProp == [][(last'.ev = "call" /\ (IF last'.read THEN Recover(st).ok ELSE st.ok) /\ ~st'.ok) => (st'.run >= st.N /\ last'.out = "gwerr")]_vars
+TripProp == [][(last'.ev = "call" /\ Tick(st).ok /\ ~st'.ok) => (st'.run >= st.N /\ last'.out = "gwerr")]_vars
 \* a closed breaker never carries a full required run
 NoPendingTrip == st.ok => st.req < st.N
 \* while the cool-down lasts the answer is FALSE, afterwards TRUE
@@ -36,5 +36,5 @@ CoolProp == [][last'.ev = "ask" =>
                  last'.ans = (st.ok \/ st.now - st.cs >= st.C)]_vars
 \* an application exception is never swallowed
 PropagateProp == [][(last'.ev = "call" /\ last'.out = "appexc" /\ (last'.ans \/ ~last'.read)) =>
-                      last'.raised = "same" /\ st'.ok = (IF last'.read THEN Recover(st).ok ELSE st.ok) /\ st'.run = st.run]_vars
+                      last'.raised = "same" /\ st'.ok = Tick(st).ok /\ st'.run = st.run]_vars
 ================================================================================
